@@ -103,8 +103,8 @@ def call_builtin(ex, name, args, kw, st, where, env):
         return
     if name == "float":
         x = args[0]
-        if isinstance(x, (int, float)):
-            yield float(x), st
+        if isinstance(x, (int, float)) or type(x).__name__ == "Fraction":
+            yield x, st
             return
         if isinstance(x, Sym) and x.ty in (IntT, RealT):
             yield Sym(RealT, coerce(x, RealT)), st
@@ -486,14 +486,9 @@ def call_method(ex, recv, name, args, kw, st, where):
             return
     if isinstance(recv, PyDict):
         if name == "get":
-            for kk, vv in reversed(recv.items):
-                c = v_eq(kk, args[0])
-                if c is True:
-                    yield vv, st
-                    return
-                if c is not False:
-                    raise PyvcUnsupported("symbolic key into dict literal")
-            yield (args[1] if len(args) > 1 else None), st
+            from .exec import _MISSING
+            for val, st2 in ex.pydict_lookup(recv, args[0], st):
+                yield ((args[1] if len(args) > 1 else None) if val is _MISSING else val), st2
             return
         if name == "items":
             yield [(k, v) for k, v in recv.items], st
